@@ -48,11 +48,17 @@ pub struct Failure {
     pub sig: String,
     /// human readable expected/actual
     pub detail: String,
+    /// optional (kind, case) to store instead of the generated value (e.g. the concrete ops of a history)
+    pub case: Option<(String, Value)>,
 }
 
 impl Failure {
+    pub fn with_case(mut self, kind: &str, case: Value) -> Self {
+        self.case = Some((kind.to_string(), case));
+        self
+    }
     pub fn new<S: Into<String>, D: Into<String>>(sig: S, detail: D) -> Self {
-        Failure { sig: sig.into(), detail: detail.into() }
+        Failure { sig: sig.into(), detail: detail.into(), case: None }
     }
 }
 
@@ -186,6 +192,11 @@ impl Ctx {
         let cur = g.get(key).and_then(|v| v.as_u64()).unwrap_or(0);
         g.insert(key.to_string(), json!(cur + n));
     }
+    pub fn note_add_quiet(&self, key: &str, n: u64) {
+        if !in_shrink() {
+            self.note_add(key, n);
+        }
+    }
     pub fn set_exhaustive(&self, yes: bool) {
         self.exhaustive.store(yes, Ordering::Relaxed);
     }
@@ -252,16 +263,18 @@ impl Ctx {
     pub fn judge<C: Serialize>(&self, kind: &str, case: &C, res: CaseResult) -> bool {
         match res {
             Ok(()) => true,
-            Err(f) => {
+            Err(mut f) => {
+                let (kind, case_v) = match f.case.take() {
+                    Some((k, v)) => (k, v),
+                    None => (kind.to_string(), serde_json::to_value(case).unwrap()),
+                };
                 if self.is_known(&f.sig) {
                     let mut g = self.kf_hits.lock().unwrap();
-                    let e = g.entry(f.sig.clone()).or_insert_with(|| {
-                        (0, json!({"kind": kind, "case": serde_json::to_value(case).unwrap(), "detail": f.detail}))
-                    });
+                    let e = g.entry(f.sig.clone()).or_insert_with(|| (0, json!({"kind": kind, "case": case_v, "detail": f.detail})));
                     e.0 += 1;
                     true
                 } else {
-                    self.violation(kind, serde_json::to_value(case).unwrap(), f);
+                    self.violation(&kind, case_v, f);
                     false
                 }
             },
@@ -522,6 +535,18 @@ pub fn mark(kind: &str, desc: &str) {
     s.seq.fetch_add(1, Ordering::Relaxed);
 }
 
+/// Append to the write-ahead description (histories: one op at a time)
+#[inline]
+pub fn mark_append(more: &str) {
+    let i = SLOT.with(|c| c.get());
+    if i == usize::MAX {
+        return;
+    }
+    let s = &slots()[i];
+    s.desc.lock().unwrap().push_str(more);
+    s.seq.fetch_add(1, Ordering::Relaxed);
+}
+
 /// Progress tick without changing the description
 #[inline]
 pub fn tick() {
@@ -594,7 +619,9 @@ pub fn start_watchdog() {
                             format!("no progress after {:.1}s thread cpu time", burned)
                         };
                         let c = ctx();
-                        let case: Value = serde_json::from_str(&desc).unwrap_or(Value::String(desc.clone()));
+                        let case: Value = serde_json::from_str(&desc)
+                            .or_else(|_| serde_json::from_str(&format!("{}]", desc.trim_end_matches(','))))
+                            .unwrap_or(Value::String(desc.clone()));
                         if c.hang_is_violation {
                             let f = Failure::new(format!("hang|{}", kind), why);
                             if c.is_known(&f.sig) {
